@@ -2,7 +2,7 @@
    Only statements closed by [exact], non-vacuity examples and Print Assumptions. *)
 From LT Require Import Base.Prelude Base.CInt Gen.Kernels Model.DataTracker
   Proofs.ZMapFacts Proofs.Seq32 Proofs.DataTracker_acc Proofs.DataTracker_fuel
-  Proofs.DataTracker_prefix Proofs.DataTracker_wrap.
+  Proofs.DataTracker_prefix Proofs.DataTracker_wrap Model.LegacyStream Proofs.LegacyStream.
 Local Open Scope Z_scope.
 
 (* The generated sequence comparison IS RFC 1982 serial comparison by relative offset. *)
@@ -94,3 +94,33 @@ Proof.
     + exists [1], [5;6;7;8;9;10;11;12]. split; reflexivity.
   - split; vm_compute; reflexivity.
 Qed.
+
+(* "the legacy stream follower gives the same delivery guarantee": on the segments of one stream (any initial sequence number,
+   any order, duplicates, overlaps) the legacy reassembly (TCPStream::generic_process, Model/LegacyStream.v: its own comparison
+   kernel, the newcomer wins a tie) is after every call in the same state as the DataTracker model -- same delivery point, same
+   map of fragments, same delivered bytes *)
+Theorem C06_legacy_same_state : forall s isn segs, 0 <= isn < 4294967296 -> zlen s < 2147483648 -> Forall (seg_ok s) segs ->
+  exists st_l st_d, run_l isn (dt_new isn) segs = Some st_l /\ run isn (dt_new isn) segs = Some st_d /\
+    dt_seq st_l = dt_seq st_d /\ dt_buf st_l = dt_buf st_d /\ dt_out st_l = dt_out st_d.
+Proof. exact legacy_same_state. Qed.
+Print Assumptions C06_legacy_same_state.
+
+(* ... and so delivers exactly the longest contiguous covered prefix, every byte once *)
+Theorem C06_legacy_delivers_covered_prefix : forall s isn segs, 0 <= isn < 4294967296 -> zlen s < 2147483648 ->
+  Forall (seg_ok s) segs ->
+  exists st, run_l isn (dt_new isn) segs = Some st /\
+    let p := w32 (dt_seq st - isn) in
+    0 <= p <= zlen s /\ dt_out st = zfirstn p s /\
+    (forall i, 0 <= i < p -> covered segs i) /\ ~ covered segs p /\
+    (forall k v, In (k, v) (dt_buf st) ->
+       let o := w32 (k - isn) in
+       p < o /\ at_off s o v /\ forall i, o <= i < o + zlen v -> covered segs i).
+Proof. exact legacy_delivered_prefix. Qed.
+Print Assumptions C06_legacy_delivers_covered_prefix.
+
+Example C06_legacy_nonvacuous :
+  let s := [1;2;3;4;5;6;7;8;9;10;11;12] in
+  let isn := 4294967291 in
+  let segs := [(8, [9;10;11;12]); (3, [4;5;6;7;8;9]); (3, [4;5;6;7;8;9]); (6, []); (1, [2;3;4]); (0, [1;2])] in
+  option_map (fun st => (dt_seq st, dt_out st, dt_buf st)) (run_l isn (dt_new isn) segs) = Some (7, s, []).
+Proof. vm_compute. reflexivity. Qed.
